@@ -226,6 +226,21 @@ def oracle(case, res, extra):
         diff = [k for k in sa if sa[k] != sb[k]]
         res.violation("failing-input", f"re-imported uncompiled routine differs in structure ({diff})", {"qref": case.qref}, {k: sb[k] for k in diff if k != "children"}, {k: sa[k] for k in diff if k != "children"})
         return
+    # the order in which a routine lists its children is part of the document (it is the chronology `children_order` records): the
+    # uncompiled round trip keeps it at every level
+    def child_orders(pa, pb, path=()):
+        if [c.name for c in pa.children] != [c.name for c in pb.children]:
+            return (".".join(path) or "root", [c.name for c in pa.children], [c.name for c in pb.children])
+        for ca in pa.children:
+            r_ = child_orders(ca, next(c for c in pb.children if c.name == ca.name), path + (ca.name,))
+            if r_:
+                return r_
+        return None
+    co = child_orders(doc.program, out2.program)
+    if co:
+        res.violation("failing-input", f"re-imported uncompiled routine lists the children of {co[0]} in another order", {"qref": case.qref}, co[2], co[1])
+        return
+    res.stats["children_order_preserved"] += 1
     err = same_exprs(doc.program, out2.program, rng)
     if err:
         res.violation("failing-input", "re-imported uncompiled routine differs: " + err, {"qref": case.qref}, err, "mathematically equal expressions")
